@@ -181,7 +181,7 @@ def gen_case(r):
       if depth >= 3 or k < 3:
         return ['sym', ('dict', 'list', 'obj')[r.below(3)], r.randint(1, 9)]
       if k < 4:
-        return ['int', r.randint(1, 9)]
+        return ['int', r.randint(1, 9)] if r.chance(0.5) else ['opq']
       if k < 8:
         return ['tup', [shape(depth + 1) for _ in range(r.randint(1, 3))]]
       if k < 9:
@@ -910,6 +910,8 @@ def _build_shape(lb, sh):
   k = sh[0]
   if k == 'int':
     return sh[1]
+  if k == 'opq':
+    return sc.Opq()
   if k == 'sym':
     if sh[1] == 'dict':
       return pg.Dict(x=sh[2], y=pg.List([sh[2]]))
@@ -947,7 +949,28 @@ def _deep_obs(pg, v):
     return ['plist', [_deep_obs(pg, c) for c in v]]
   if isinstance(v, dict):
     return ['pdict', [[str(k), _deep_obs(pg, c)] for k, c in v.items()]]
+  if isinstance(v, sc.Opq):
+    return ['opq', repr(v.inner)]
   return repr(v)
+
+
+def _val_struct(pg, v, objs):
+  """the value as a term of lean/PgModel/CloneVal.lean; objs: its mutable objects in pre-order."""
+  if isinstance(v, pg.Symbolic):
+    objs.append(v)
+    return ['sym', [_val_struct(pg, c, objs) for _, c in _children(pg, v)]]
+  if isinstance(v, tuple):
+    return ['tup', [_val_struct(pg, c, objs) for c in v]]
+  if isinstance(v, list):
+    objs.append(v)
+    return ['plist', [_val_struct(pg, c, objs) for c in v]]
+  if isinstance(v, dict):
+    objs.append(v)
+    return ['pdict', [_val_struct(pg, c, objs) for c in v.values()]]
+  if isinstance(v, sc.Opq):
+    objs.append(v)
+    return ['opq']
+  return ['imm']
 
 
 def _run_tuples(lb, s):
@@ -968,6 +991,12 @@ def _run_tuples(lb, s):
     return ('not-equal', 'the clone differs from the original: %s vs %s' % (_deep_obs(pg, c), before))
   if not pg.eq(root, c):
     return ('not-equal', 'pg.eq(original, clone) is False')
+  # for the comparison with the Lean model: which mutable objects of the clone ARE objects of the original
+  oo, co = [], []
+  struct = _val_struct(pg, root, oo)
+  _val_struct(pg, c, co)
+  orig_ids = {id(x) for x in oo}
+  s['_clonev'] = {'deep': deep, 'v': struct, 'shared': [id(x) in orig_ids for x in co]}
   if not deep:
     return None
   a, b = _deep_nodes(pg, root, (), []), _deep_nodes(pg, c, (), [])
@@ -1001,8 +1030,13 @@ def run_case(case):
   s = case['lib']
   fn = {'functor': _run_functor, 'dna': _run_dna, 'hyper': _run_hyper, 'wrapped': _run_wrapped,
         'flagcls': _run_flagcls, 'subroot': _run_subroot, 'tuples': _run_tuples}[s['fam']]
+  s = dict(s)
   bad = fn(lb, s)
+  clonev = s.pop('_clonev', None)
   fail = None
   if bad:
     fail = {'step': 0, 'op': {'op': 'lib:' + s['fam'], 'n': True}, 'kind': bad[0], 'what': bad[1], 'lib': s}
-  return {'model': [], 'fail': fail, 'lib': s['fam'], 'clones': 1}
+  out = {'model': [], 'fail': fail, 'lib': s['fam'], 'clones': 1}
+  if clonev is not None:
+    out['clonev'] = clonev
+  return out
